@@ -287,6 +287,11 @@ func (s *Session) ReadRTCP(raw []byte) (int, interceptor.Attributes, error) {
 // FailNextRTCPRead makes the next innermost RTCP read fail.
 func (s *Session) FailNextRTCPRead() { s.rtcpIn.fail = true }
 
+// SeqNow returns the number of batches/packets that have reached the transport so far.
+//
+//go:norace
+func (t *Transport) SeqNow() int { return t.seq }
+
 // TakeRTP returns and clears the RTP packets recorded at the transport.
 //
 //go:norace
